@@ -25,6 +25,9 @@ Lemma tmatch_tok_unfold cs ic t r s :
     end.
 Proof. intro H. destruct t; try reflexivity. congruence. Qed.
 
+Lemma tok_eq_star t : t = TStar \/ t <> TStar.
+Proof. destruct t; [left; reflexivity|right; discriminate..]. Qed.
+
 Definition dstar : str := [ch_star; ch_star].
 
 Lemma gmatch_dstar_unfold cs r path :
@@ -80,7 +83,7 @@ Lemma tok_char_noslash cs t :
       forall i, In i items -> item_has cs i slash = false) ->
   tok_char cs true t slash = false.
 Proof.
-  intros Hs Hl Hc. destruct t as [| |neg items|a]; simpl.
+  intros Hs Hl Hc. destruct t as [| |neg items|a]; cbn [tok_char].
   - congruence.
   - reflexivity.
   - destruct neg.
@@ -108,7 +111,7 @@ Proof.
               forall i, In i items -> item_has cs i slash = false)
       by (intros items Hin; apply Hc; right; exact Hin).
     destruct (tok_eq_star t) as [Et|Et].
-    + subst t. induction s as [|c s' IHs].
+    + subst t. revert H. induction s as [|c s' IHs]; intro H.
       * reflexivity.
       * rewrite tmatch_star_unfold in H. apply orb_true_iff in H as [H|H].
         -- apply (IH _ H Hl' Hc').
@@ -124,4 +127,341 @@ Proof.
       rewrite tok_char_noslash in H1; [discriminate|exact Et| |].
       * intros c E. apply Hl. left. exact E.
       * intros items E. apply Hc. left. exact E.
+Qed.
+
+(* ------------------------------------------------------------------ *)
+(* '**' matches any number of whole directory levels *)
+Theorem gmatch_dstar_any : forall cs r path extra,
+  gmatch cs r path = true -> gmatch cs ([ch_star; ch_star] :: r) (extra ++ path) = true.
+Proof.
+  intros cs r path extra H. fold dstar. induction extra as [|e extra IH].
+  - simpl app. rewrite gmatch_dstar_unfold, H. reflexivity.
+  - simpl app. rewrite gmatch_dstar_unfold. apply orb_true_iff. right. exact IH.
+Qed.
+
+Theorem gmatch_dstar_inv : forall cs r path,
+  gmatch cs ([ch_star; ch_star] :: r) path = true ->
+  exists a b, path = a ++ b /\ gmatch cs r b = true.
+Proof.
+  intros cs r path. fold dstar. induction path as [|c p IH]; intro H.
+  - rewrite gmatch_dstar_unfold, orb_false_r in H. exists [], []. split; [reflexivity|exact H].
+  - rewrite gmatch_dstar_unfold in H. apply orb_true_iff in H as [H|H].
+    + exists [], (c :: p). split; [reflexivity|exact H].
+    + destruct (IH H) as [a [b [E Hb]]]. exists (c :: a), b. split; [|exact Hb].
+      simpl. f_equal. exact E.
+Qed.
+
+(* ------------------------------------------------------------------ *)
+(* depth pruning never loses a match: a pattern without '**' only matches paths that are
+   at most [levels] components deep *)
+
+Lemma split_on_length c s : length (split_on c s) = S (count_c c s).
+Proof.
+  unfold count_c. induction s as [|x xs IH]; [reflexivity|].
+  simpl. replace (ceqb c x) with (ceqb x c) by (unfold ceqb; apply N.eqb_sym).
+  destruct (ceqb x c).
+  - simpl. f_equal. exact IH.
+  - pose proof (split_on_nonnil c xs) as Hn.
+    destruct (split_on c xs) as [|h t]; [congruence|]. exact IH.
+Qed.
+
+Lemma resolve_stack_length cs : forall st r,
+  resolve_stack cs st = Some r -> length r <= length cs + length st.
+Proof.
+  induction cs as [|c cs IH]; intros st r H.
+  - simpl in H. inversion H; subst. rewrite rev_length. simpl. lia.
+  - simpl in H. destruct (c_empty c || c_dot c).
+    + apply IH in H. simpl. lia.
+    + destruct (c_dotdot c).
+      * destruct st as [|x st]; [discriminate|]. apply IH in H. simpl. lia.
+      * apply IH in H. simpl in *. lia.
+Qed.
+
+Lemma resolve_comps_length pat pcs :
+  resolve (comps pat) = Some pcs -> length pcs <= S (count_c slash pat).
+Proof.
+  intro H. apply resolve_stack_length in H. unfold comps in H.
+  rewrite split_on_length in H. simpl in H. lia.
+Qed.
+
+Lemma is_dstar_has_dstar c : is_dstar c = true -> has_dstar c = true.
+Proof. unfold is_dstar. intro H. apply str_eqb_eq in H. subst c. reflexivity. Qed.
+
+Lemma no_has_dstar_no_is_dstar pcs :
+  existsb has_dstar pcs = false -> forallb (fun c => negb (is_dstar c)) pcs = true.
+Proof.
+  induction pcs as [|c pcs IH]; [reflexivity|].
+  cbn [existsb forallb]. intro H. apply orb_false_iff in H as [H1 H2].
+  rewrite (IH H2), andb_true_r. apply negb_true_iff.
+  destruct (is_dstar c) eqn:E; [|reflexivity].
+  apply is_dstar_has_dstar in E. congruence.
+Qed.
+
+Theorem levels_sound : forall cs pat path d n,
+  levels pat = Some n -> glob_spec cs pat path d = Some true -> length path <= n.
+Proof.
+  intros cs pat path d n Hl Hg. unfold levels in Hl. unfold glob_spec in Hg.
+  destruct (resolve (comps pat)) as [pcs|] eqn:Er; [|discriminate].
+  destruct (existsb has_dstar pcs) eqn:Ed; [discriminate|].
+  inversion Hl; subst n. inversion Hg as [Hg'].
+  apply andb_true_iff in Hg' as [_ Hm].
+  rewrite (gmatch_component_count cs pcs path (no_has_dstar_no_is_dstar pcs Ed) Hm).
+  apply resolve_comps_length. exact Er.
+Qed.
+
+(* ------------------------------------------------------------------ *)
+(* names match in full: a literal pattern matches exactly itself (case sensitive) *)
+Theorem tmatch_literal : forall s t,
+  tmatch true false (map TLit s) t = true <-> t = s.
+Proof.
+  induction s as [|a s IH]; intro t.
+  - simpl. destruct t; split; intro H; try reflexivity; discriminate.
+  - cbn [map]. rewrite tmatch_tok_unfold by discriminate.
+    destruct t as [|c t'].
+    + split; intro H; discriminate.
+    + cbn [tok_char]. split; intro H.
+      * apply andb_true_iff in H as [H1 H2]. apply N.eqb_eq in H1. apply IH in H2.
+        subst. reflexivity.
+      * inversion H; subst. rewrite N.eqb_refl. simpl. apply IH. reflexivity.
+Qed.
+
+(* ------------------------------------------------------------------ *)
+(* the cache never exceeds its size and never changes an answer *)
+
+Lemma assoc_set_length {A} k (v : A) c :
+  assoc k c <> None -> length (assoc_set k v c) = length c.
+Proof.
+  induction c as [|[k' v'] c IH]; simpl; intro H; [congruence|].
+  destruct (str_eqb k k'); [reflexivity|]. simpl. f_equal. apply IH. exact H.
+Qed.
+
+Lemma assoc_del_length {A} k (c : list (str * A)) :
+  assoc k c <> None -> S (length (assoc_del k c)) = length c.
+Proof.
+  induction c as [|[k' v'] c IH]; simpl; intro H; [congruence|].
+  destruct (str_eqb k k'); [reflexivity|]. simpl. f_equal. apply IH. exact H.
+Qed.
+
+Theorem lru_bound : forall (V : Type) size (c : list (str * V)) k v,
+  0 < size -> length c <= size -> length (lru_set size c k v) <= size.
+Proof.
+  intros V size c k v Hs Hc. unfold lru_set.
+  destruct (assoc k c) eqn:E.
+  - rewrite assoc_set_length by congruence. exact Hc.
+  - rewrite app_length. simpl. destruct (size <=? length c) eqn:El.
+    + apply Nat.leb_le in El. destruct c as [|x c]; simpl in *; lia.
+    + apply Nat.leb_gt in El. lia.
+Qed.
+
+Theorem lru_get_bound : forall (V : Type) (c : list (str * V)) k v c',
+  lru_get c k = Some (v, c') -> length c' = length c.
+Proof.
+  intros V c k v c' H. unfold lru_get in H.
+  destruct (assoc k c) eqn:E; [|discriminate]. inversion H; subst.
+  rewrite app_length. simpl. rewrite <- (assoc_del_length k c) by congruence. lia.
+Qed.
+
+(* ---- association-list facts ---- *)
+
+Lemma assoc_app {A} k (a b : list (str * A)) :
+  assoc k (a ++ b) = match assoc k a with Some v => Some v | None => assoc k b end.
+Proof.
+  induction a as [|[k' v'] a IH]; simpl; [reflexivity|].
+  destruct (str_eqb k k'); [reflexivity|exact IH].
+Qed.
+
+Lemma assoc_in_keys {A} k (c : list (str * A)) v : assoc k c = Some v -> In k (keys c).
+Proof.
+  induction c as [|[k' v'] c IH]; simpl; intro H; [discriminate|].
+  destruct (str_eqb k k') eqn:E.
+  - apply str_eqb_eq in E. left. congruence.
+  - right. apply IH. exact H.
+Qed.
+
+Lemma assoc_none_keys {A} k (c : list (str * A)) : assoc k c = None -> ~ In k (keys c).
+Proof.
+  induction c as [|[k' v'] c IH]; simpl; intros H Hin; [exact Hin|].
+  destruct (str_eqb k k') eqn:E; [discriminate|].
+  destruct Hin as [Hin|Hin].
+  - subst k'. rewrite str_eqb_refl in E. discriminate.
+  - exact (IH H Hin).
+Qed.
+
+Lemma not_in_keys_assoc {A} k (c : list (str * A)) : ~ In k (keys c) -> assoc k c = None.
+Proof.
+  intro H. destruct (assoc k c) eqn:E; [|reflexivity].
+  exfalso. apply H. eapply assoc_in_keys. exact E.
+Qed.
+
+Lemma assoc_del_other {A} k k' (c : list (str * A)) :
+  k' <> k -> assoc k' (assoc_del k c) = assoc k' c.
+Proof.
+  intro Hne. induction c as [|[k0 v0] c IH]; simpl; [reflexivity|].
+  destruct (str_eqb k k0) eqn:E.
+  - apply str_eqb_eq in E. subst k0.
+    apply str_eqb_neq in Hne. rewrite Hne. reflexivity.
+  - simpl. rewrite IH. reflexivity.
+Qed.
+
+Lemma keys_assoc_del_incl {A} k (c : list (str * A)) x :
+  In x (keys (assoc_del k c)) -> In x (keys c).
+Proof.
+  induction c as [|[k0 v0] c IH]; simpl; intro H; [exact H|].
+  destruct (str_eqb k k0).
+  - right. exact H.
+  - simpl in H. destruct H as [H|H]; [left; exact H|right; apply IH; exact H].
+Qed.
+
+Lemma assoc_del_nodup {A} k (c : list (str * A)) :
+  NoDup (keys c) -> NoDup (keys (assoc_del k c)).
+Proof.
+  induction c as [|[k0 v0] c IH]; simpl; intro H; [exact H|].
+  inversion H as [|? ? Hn Hd]; subst.
+  destruct (str_eqb k k0); [exact Hd|].
+  simpl. constructor; [|apply IH; exact Hd].
+  intro Hin. apply Hn. eapply keys_assoc_del_incl. exact Hin.
+Qed.
+
+Lemma assoc_del_not_in {A} k (c : list (str * A)) :
+  NoDup (keys c) -> ~ In k (keys (assoc_del k c)).
+Proof.
+  induction c as [|[k0 v0] c IH]; simpl; intros H Hin; [exact Hin|].
+  inversion H as [|? ? Hn Hd]; subst.
+  destruct (str_eqb k k0) eqn:E.
+  - apply str_eqb_eq in E. subst k0. exact (Hn Hin).
+  - simpl in Hin. destruct Hin as [Hin|Hin].
+    + subst k0. rewrite str_eqb_refl in E. discriminate.
+    + exact (IH Hd Hin).
+Qed.
+
+Lemma assoc_tl_nodup {A} k (c : list (str * A)) v :
+  NoDup (keys c) -> assoc k (tl c) = Some v -> assoc k c = Some v.
+Proof.
+  destruct c as [|[k0 v0] c]; simpl; intros H E; [exact E|].
+  inversion H as [|? ? Hn Hd]; subst.
+  destruct (str_eqb k k0) eqn:Ek; [|exact E].
+  apply str_eqb_eq in Ek. subst k0. exfalso. apply Hn. eapply assoc_in_keys. exact E.
+Qed.
+
+Lemma keys_app {A} (a b : list (str * A)) : keys (a ++ b) = keys a ++ keys b.
+Proof. unfold keys. apply map_app. Qed.
+
+Lemma keys_assoc_set_present {A} k (v : A) c :
+  assoc k c <> None -> keys (assoc_set k v c) = keys c.
+Proof.
+  induction c as [|[k0 v0] c IH]; simpl; intro H; [congruence|].
+  destruct (str_eqb k k0) eqn:E.
+  - apply str_eqb_eq in E. subst k0. reflexivity.
+  - simpl. f_equal. apply IH. exact H.
+Qed.
+
+Lemma nodup_snoc {A} (l : list A) x : NoDup l -> ~ In x l -> NoDup (l ++ [x]).
+Proof.
+  induction l as [|y l IH]; simpl; intros Hd Hn.
+  - constructor; [intros []|constructor].
+  - inversion Hd as [|? ? Hy Hl]; subst. constructor.
+    + intro Hin. apply in_app_or in Hin as [Hin|[Hin|[]]]; [exact (Hy Hin)|].
+      apply Hn. left. symmetry. exact Hin.
+    + apply IH; [exact Hl|]. intro Hin. apply Hn. right. exact Hin.
+Qed.
+
+(* ---- the well-formedness invariant (keys pairwise distinct, as in an OrderedDict)
+        is preserved by all cache operations ---- *)
+
+Lemma lru_set_nodup (V : Type) size (c : list (str * V)) k v :
+  NoDup (keys c) -> NoDup (keys (lru_set size c k v)).
+Proof.
+  intro Hd. unfold lru_set. destruct (assoc k c) eqn:E.
+  - rewrite keys_assoc_set_present by congruence. exact Hd.
+  - apply assoc_none_keys in E. rewrite keys_app. simpl.
+    destruct (size <=? length c).
+    + destruct c as [|[k0 v0] c]; simpl in *.
+      * apply (nodup_snoc []); [constructor|intros []].
+      * inversion Hd; subst. apply nodup_snoc; [assumption|]. intro Hin. apply E. right. exact Hin.
+    + apply nodup_snoc; assumption.
+Qed.
+
+Lemma lru_get_nodup (V : Type) (c : list (str * V)) k v c' :
+  NoDup (keys c) -> lru_get c k = Some (v, c') -> NoDup (keys c').
+Proof.
+  intros Hd H. unfold lru_get in H. destruct (assoc k c) eqn:E; [|discriminate].
+  inversion H; subst. rewrite keys_app. simpl.
+  apply nodup_snoc; [apply assoc_del_nodup; exact Hd|apply assoc_del_not_in; exact Hd].
+Qed.
+
+Lemma cached_nodup (V : Type) size (compute : str -> V) c k :
+  NoDup (keys c) -> NoDup (keys (snd (cached size compute c k))).
+Proof.
+  intro Hd. unfold cached. destruct (lru_get c k) as [[v c']|] eqn:E.
+  - simpl. eapply lru_get_nodup; eassumption.
+  - simpl. apply lru_set_nodup. exact Hd.
+Qed.
+
+(* STATEMENT CHANGED: the original statement (below, without [NoDup (keys c)]) is false when
+   the association list holds a key twice: [assoc] only sees the first binding, so the
+   hypothesis says nothing about a shadowed second binding, which [assoc_del] (on a hit) or
+   [tl] (eviction on a miss) can uncover.  Counterexamples with V = nat, compute = fun _ => 0:
+     c = [([],0); ([],1)], k = [], size = 3 (hit):
+       cached 3 compute c [] = (0, [([],1); ([],0)])  and  assoc [] (snd ...) = Some 1 <> 0;
+     c = [([],0); ([],1)], k = [1], size = 2 (miss with eviction):
+       cached 2 compute c [1] = (0, [([],1); ([1],0)]) and  assoc [] (snd ...) = Some 1 <> 0.
+   A Python OrderedDict never holds a key twice; the side condition [NoDup (keys c)] states
+   exactly that, holds for the empty cache, and is preserved by every operation
+   (lru_set_nodup, lru_get_nodup, cached_nodup above), so it is an invariant.
+   The first conjunct (the answer is [compute k]) holds without it.
+
+Theorem cached_transparent : forall (V : Type) size (compute : str -> V) c k,
+  (forall k' v', assoc k' c = Some v' -> v' = compute k') ->
+  fst (cached size compute c k) = compute k
+  /\ (forall k' v', assoc k' (snd (cached size compute c k)) = Some v' -> v' = compute k').
+*)
+
+Lemma cached_answer (V : Type) size (compute : str -> V) c k :
+  (forall k' v', assoc k' c = Some v' -> v' = compute k') ->
+  fst (cached size compute c k) = compute k.
+Proof.
+  intro Hc. unfold cached, lru_get. destruct (assoc k c) eqn:E; simpl; [|reflexivity].
+  apply Hc. exact E.
+Qed.
+
+Theorem cached_transparent : forall (V : Type) size (compute : str -> V) c k,
+  NoDup (keys c) ->
+  (forall k' v', assoc k' c = Some v' -> v' = compute k') ->
+  fst (cached size compute c k) = compute k
+  /\ (forall k' v', assoc k' (snd (cached size compute c k)) = Some v' -> v' = compute k').
+Proof.
+  intros V size compute c k Hd Hc. split; [apply cached_answer; exact Hc|].
+  intros k' v'. unfold cached, lru_get. destruct (assoc k c) as [v|] eqn:E; simpl.
+  - (* hit: the entry moves to the end *)
+    rewrite assoc_app. destruct (str_eqb k' k) eqn:Ek.
+    + apply str_eqb_eq in Ek. subst k'.
+      rewrite (not_in_keys_assoc k _ (assoc_del_not_in k c Hd)). simpl.
+      rewrite str_eqb_refl. intro H. inversion H; subst. apply Hc. exact E.
+    + apply str_eqb_neq in Ek. rewrite assoc_del_other by exact Ek.
+      destruct (assoc k' c) eqn:E'.
+      * intro H. inversion H; subst. apply Hc. exact E'.
+      * simpl. apply str_eqb_neq in Ek. rewrite Ek. discriminate.
+  - (* miss: compute, store, possibly evicting the oldest *)
+    unfold lru_set. rewrite E, assoc_app.
+    set (c0 := if size <=? length c then tl c else c).
+    assert (Hc0 : forall v0, assoc k' c0 = Some v0 -> assoc k' c = Some v0).
+    { intros v0. unfold c0. destruct (size <=? length c); [|tauto].
+      apply assoc_tl_nodup. exact Hd. }
+    destruct (assoc k' c0) eqn:E0.
+    + intro H. inversion H; subst. apply Hc. apply Hc0. reflexivity.
+    + simpl. destruct (str_eqb k' k) eqn:Ek; [|discriminate].
+      apply str_eqb_eq in Ek. subst k'. intro H. inversion H. reflexivity.
+Qed.
+
+(* the original (unconditional) statement is refuted by the first counterexample above *)
+Lemma cached_transparent_original_false :
+  ~ (forall (V : Type) size (compute : str -> V) c k,
+      (forall k' v', assoc k' c = Some v' -> v' = compute k') ->
+      fst (cached size compute c k) = compute k
+      /\ (forall k' v', assoc k' (snd (cached size compute c k)) = Some v' -> v' = compute k')).
+Proof.
+  intro H.
+  destruct (H nat 3 (fun _ => 0) [([], 0); ([], 1)] []) as [_ H2].
+  - intros k' v'. destruct k'; simpl; intro E; inversion E; reflexivity.
+  - specialize (H2 [] 1 eq_refl). discriminate.
 Qed.
